@@ -356,6 +356,16 @@ def run(ctx):
                           + (" (quick: every 5th cell)" if ctx.quick else ""))
     for _ in range(ctx.n(1500, 200_000)):
         k_frame(ctx, rand_frame(r))
+    # frames of exactly a given total size: the largest a 16-bit length field can describe (65536 octets, field 0xFFFF), one less,
+    # and sizes around powers of two
+    for target in (65536, 65535, 65534, 32769, 32768, 32767, 4096, 512, 257, 256, 255):
+        for ftype in ("fixed", "variable"):
+            for rep in range(1 if ctx.quick and target < 65534 else 2):
+                d = rand_frame(r, ftype, tfdz_len=0)
+                overhead = build_frame(d)[2]
+                d["tfdz"] = rand_bytes(r, target - overhead).hex()
+                ctx.table("frame_total_size", target)
+                k_frame(ctx, d)
     for _ in range(ctx.n(300, 30_000)):
         d = rand_frame(r, tfdz_len=r.choice((1, 2, 17)))
         for kind in ("wrong_fixed_len", "truncated_under_fixed", "rule_of_other_type", "wrong_props_class", "no_room_for_tfdf", "sizes_leave_zero"):
